@@ -18,16 +18,139 @@ TRUSTED = ('R model Make/MakeNames.v (rule-header word reading) validated agains
            'Ninja reader model is trusted (no ninja binary)')
 
 SPECIALS = [c for c in string.printable if c.isprintable() and not c.isalnum() and c not in '\\/_.'] + ['\t']
-# known implementation defects (findings.d/C04.json): classes are predicates on the name
-def classify(name, side):
+# known implementation defects (findings.d/C04.json). A class is a predicate on the name AND on the failure: it applies only
+# when the observed failure is the one the recorded finding describes, so that any other failure on a name of the same
+# shape is still a violation. Each stage has its own classifier (the findings are about particular positions of a name).
+def esc_brackets(s):
+    return s.replace('[', '\\[').replace(']', '\\]')
+
+
+def classify_names(name, ttext, dtext, res):
+    """stage_make (the name as target and as prerequisite of a reference rule), bfg9000's texts ttext / dtext, make's run res.
+      make-percent-in-prerequisite: make stops with 'No rule to make target', and the same two texts with the backslash in
+        front of every % REMOVED ON THE PREREQUISITE SIDE (the spelling the finding names as accepted) work;
+      make-bracket-escaped: make runs, but target, prerequisite and the created file are the name with a backslash in front
+        of each bracket; the texts without those backslashes work.
+    Both repairs are applied together when the name has both; the repaired texts must make the name work completely (good),
+    otherwise something else is wrong with this name as well."""
+    pct, brk = '%' in name, ('[' in name or ']' in name)
+    if not (pct or brk):
+        return ()
+    if pct:
+        if not (res['rc'] != 0 and 'No rule to make target' in res['out'] and res['created'] == []):
+            return ()
+    else:
+        at = esc_brackets(name)
+        if not (res['rc'] == 0 and res['T'] == at and res['D'] == at and res['created'] == [at]):
+            return ()
+    t2, d2 = ttext, dtext
     cls = []
-    if '%' in name:
+    if pct and '\\%' in dtext:
+        d2 = d2.replace('\\%', '%')
         cls.append('make-percent-in-prerequisite')
-    if ']' in name or '[' in name:
+    if brk and ('\\[' in ttext + dtext or '\\]' in ttext + dtext):
+        t2 = t2.replace('\\[', '[').replace('\\]', ']')
+        d2 = d2.replace('\\[', '[').replace('\\]', ']')
         cls.append('make-bracket-escaped')
-    if "'" in name:
-        cls.append('make-single-quote-in-automatic-variable')
+    if (t2, d2) == (ttext, dtext) or not good(run_make_names(name, name, t2, d2), name):
+        return ()
     return tuple(cls)
+
+
+def sh_words_in_scratch(line):
+    """argv the real dash delivers to the recorder for `recorder <line>`, run in a scratch directory with the record written
+    to a log file (the line may contain redirections); None when sh fails or does not start exactly one recorder."""
+    d = common.scratch('c04sh')
+    try:
+        log = os.path.join(d, '.log')
+        e = {'PATH': '/usr/bin:/bin', 'ARGVREC_ENV': '', 'ARGVREC_OUT': log, 'LC_ALL': 'C.UTF-8'}
+        p = subprocess.run(['dash', '-c', shtools.ARGVREC + ' ' + line], capture_output=True, env=e, timeout=10, cwd=d)
+        recs = shtools.parse_rec(open(log, encoding='utf-8', errors='surrogateescape').read()) if os.path.exists(log) else []
+        return recs[0]['argv'] if p.returncode == 0 and len(recs) == 1 else None
+    finally:
+        shutil.rmtree(d, ignore_errors=True)
+
+
+def classify_recipe(name, got, out):
+    """stage_make_recipe_names (recipe `recorder '$@' path`): the findings predict the delivered words exactly.
+      make-bracket-escaped: $@ is the name with a backslash in front of each bracket, the path argument is right;
+      make-single-quote-in-automatic-variable: sh reads the line  '<value of $@>' <quoted path>  - the words that line gives
+        (computed here by the real dash with a reference quoting of the path), or sh's syntax error."""
+    brk, sq = ('[' in name or ']' in name), "'" in name
+    if not (brk or sq):
+        return ()
+    at = esc_brackets(name)
+    if not sq:
+        ok = got in ([at, name], [at, './' + name])
+    else:
+        ok = False
+        for spelling in ('./' + name, name):
+            line = "'%s' '%s'" % (at, spelling.replace("'", "'\\''"))
+            pred = sh_words_in_scratch(line)
+            if pred is None:
+                ok = ok or (got is None and '/bin/sh:' in out)        # sh rejects the line (syntax error, a redirection)
+            else:
+                ok = ok or got == pred
+    if not ok:
+        return ()
+    return (('make-bracket-escaped',) if brk else ()) + (('make-single-quote-in-automatic-variable',) if sq else ())
+
+
+def classify_call(name, want, got, text, out):
+    """stage_call_names (the name as argument of $(call RULE,...)).
+      make-call-comma: a comma outside parentheses; the failure disappears when the writer's `$,` is spelled `$(,)` (the
+        spelling the finding names as working; the variable is defined by the writer) and nothing else is changed;
+      make-call-paren: unbalanced parentheses; nothing is delivered: Make stops with 'unterminated call to function' (an
+        open parenthesis is left) or the command line cut at the stray ')' is rejected by sh."""
+    from . import c01
+    depth, top_comma, stray = 0, False, False
+    for c in name:
+        if c == ',' and depth == 0:
+            top_comma = True
+        depth += (c == '(') - (c == ')')
+        if depth < 0:
+            stray = True
+            break
+    unbalanced = stray or depth != 0
+    if not (top_comma or unbalanced):
+        return ()
+    if unbalanced:
+        if got is not None:
+            return ()
+        if stray:
+            ok = 'Syntax error' in out and '/bin/sh:' in out
+        else:
+            ok = "unterminated call to function 'call': missing ')'" in out
+        return (('make-call-comma',) if top_comma else ()) + ('make-call-paren',) if ok else ()
+    lines = text.split('\n')
+    idx = [i for i, ln in enumerate(lines) if '$(call RULE_X,' in ln]
+    if len(idx) != 1 or '$,' not in lines[idx[0]]:
+        return ()
+    lines[idx[0]] = lines[idx[0]].replace('$,', '$(,)')
+    rc, recs, out2 = shtools.make_run('\n'.join(lines), 'all')
+    got2 = [r['argv'] for r in recs] if rc == 0 else None
+    if got2 is not None and len(got2) == 2 and len(got2[0]) == 4 and got2[0][1] == './' + name:
+        got2[0][1] = name
+    return ('make-call-comma',) if got2 == want else ()
+
+
+def location_signature(c, src, why, mout, recs):
+    """make-srcdir-location-special: the failure the finding describes for a source directory whose path contains c."""
+    cut = src[:src.index(c)] if c in src else src
+    if c in ' \t|':
+        return why == 'the project does not build' and "No rule to make target '%s', needed by 'Makefile'" % cut in mout
+    if c == ':':
+        return why == 'the project does not build' and "target pattern contains no '%'" in mout
+    if c == ';':
+        return why == 'the project does not build' and 'missing separator' in mout
+    if c == '%':
+        return why == 'the project does not build' and "No rule to make target '%s" % src.replace('%', '\\%') in mout
+    if c == "'":
+        # every recipe word '$(srcdir)/...' ends its quoting at the quote in the path: the compiler is started, and the path
+        # without the quote is (part of) one of its arguments
+        return why == 'touching a source does not recompile it' and \
+            any(os.path.join(src.replace("'", ''), 'sub/f.c') in a for r in recs for a in (r['argv'] or []))
+    return False
 
 
 def reference_escape(name, side):
@@ -187,7 +310,7 @@ def stage_make(rep, rng, names):
                         % (n, MW.escape_str(n, MS.target), MW.escape_str(n, MS.dependency), impl_res),
                         {'name': n, 'bfg_target': MW.escape_str(n, MS.target), 'bfg_dep': MW.escape_str(n, MS.dependency),
                          'make_with_bfg_escaping': impl_res, 'make_with_reference_escaping': ref_res},
-                        classes=classify(n, 'make')):
+                        classes=classify_names(n, MW.escape_str(n, MS.target), MW.escape_str(n, MS.dependency), impl_res)):
                 bad += 1
         else:
             rep.count('make:unrepresentable_at_runtime')
@@ -209,18 +332,32 @@ def stage_make_recipe_names(rep, rng, names):
         except ValueError:
             continue
         o = StringIO(); mk.write(o)
-        rc, recs, out = shtools.make_run(o.getvalue(), None)
+        goal = None
+        if '%' in n or n.startswith('.'):
+            # GNU Make never takes a target containing % or starting with a dot as the default goal ('No targets'), however
+            # it is written: such a name is requested as a goal on the command line (possible unless the word would be read
+            # as an option or as a variable assignment there)
+            if n.startswith('-') or '=' in n:
+                rep.count('recipe:name that can neither be the default goal nor be requested as a goal')
+                continue
+            goal = n
+        rc, recs, out = shtools.make_run(o.getvalue(), goal)
+        if goal is not None and rc != 0 and 'No rule to make target' in out and esc_brackets(n) != n:
+            # make-bracket-escaped: the rule is for the name WITH the backslashes; ask for that one (what the recipe then
+            # receives is judged below as for every other name)
+            rc, recs, out = shtools.make_run(o.getvalue(), esc_brackets(n))
         got = recs[0]['argv'] if rc == 0 and len(recs) == 1 else None
         # only names Make can represent as a target at all are in scope
         if not reference_ok(n)[0]:
             continue
         rep.case('r:' + n, True)
+        raw = got
         if got is not None and len(got) == 2 and got[1] == './' + n:
             got = [got[0], n]          # a bare file name in a command is written as ./name: the same file
         if got != [n, n]:
             if rep.fail("Make: output %r passed as '$@' and as path argument is delivered as %r" % (n, got),
                         {'name': n, 'delivered': got, 'makefile': o.getvalue(), 'out': out[-300:]},
-                        classes=classify(n, 'make')):
+                        classes=classify_recipe(n, raw, out)):
                 bad += 1
     rep.stage('make recipe names', names=len(names), failures=bad)
     return bad
@@ -303,11 +440,18 @@ def stage_system_names(rep, rng, thorough):
             rep.count('system:char %r' % c)
             # in scope only when an accepted escaping exists for the directory and the file name
             if not ok and reference_ok(d1)[0] and reference_ok(stem + '.o')[0]:
-                cls = list(classify(stem, 'make'))
-                if c == ',':
-                    cls.append('make-call-comma')
-                if c in '()':
+                # the two findings about $(call RULE_LINK,objects): every object is compiled at its place, only the link step
+                # goes wrong, in the way the finding describes
+                cls = []
+                compiled_only = not missing and not stray and not linked
+                if c == ',' and compiled_only and rcm == 0 and \
+                        any(r['argv'] == [' '.join(objs).split(',')[0] + '$', '-o', 'prog'] for r in recs):
+                    cls.append('make-call-comma')       # the object list is cut at its first comma
+                if c == '(' and compiled_only and rcm != 0 and "unterminated call to function 'call': missing ')'" in mout:
                     cls.append('make-call-paren')
+                if c == ')' and compiled_only and rcm != 0 and '/bin/sh:' in mout and 'Syntax error' in mout and \
+                        not any(r['argv'] and '-o' in r['argv'] and r['argv'][-1] == 'prog' for r in recs):
+                    cls.append('make-call-paren')       # the call ends at the first ')' of the object list; sh rejects the rest
                 if rep.fail('Make: project with sources %r does not build exactly its outputs (missing %r, stray %r, linked %r): %s'
                             % (srcs, missing, stray, linked, mout[-200:]),
                             {'char': c, 'sources': srcs, 'make_output': mout[-800:], 'missing_objects': missing, 'stray_entries': stray,
@@ -379,7 +523,8 @@ def stage_system_location(rep, rng, thorough):
                 if rcm != 0 or not os.path.exists(os.path.join(base, 'pfx', 'include', 'h.h')):
                     why = 'install does not place the header below the prefix'
             if why:
-                special = [ch for ch in src if ch in " \t:'%;|"]      # the characters of the recorded finding
+                # the characters of the recorded finding, each with the failure the finding describes for it
+                special = c in " \t:'%;|" and location_signature(c, src, why, mout, recs3 if why.startswith('touching') else [])
                 bad += rep.fail('Make: with the source directory at %r %s: %s' % (src, why, mout[-250:]),
                                 {'kind': 'location', 'backend': 'make', 'srcdir': src, 'why': why, 'make_output': mout[-800:]},
                                 classes=('make-srcdir-location-special',) if special else ())
@@ -409,21 +554,9 @@ def stage_call_names(rep, rng, names):
             got[0][1] = n              # a bare file name in a command is written as ./name: the same file
         rep.case('call:' + n, True)
         rep.count('call:guard_ok' if c01.call_word_ok(n) else 'call:outside_guard')
-        if got != [['L1', n, '--', 'out'], ['L2', 'all', 'out']]:
-            cls = list(classify(n, 'make'))
-            if not c01.call_word_ok(n):
-                depth, top_comma, unbalanced = 0, False, False
-                for c in n:
-                    if c == ',' and depth == 0:
-                        top_comma = True
-                    depth += (c == '(') - (c == ')')
-                    if depth < 0:
-                        unbalanced = True
-                        break
-                if top_comma:
-                    cls.append('make-call-comma')
-                if unbalanced or depth != 0:
-                    cls.append('make-call-paren')
+        want = [['L1', n, '--', 'out'], ['L2', 'all', 'out']]
+        if got != want:
+            cls = classify_call(n, want, got, text, out) if not c01.call_word_ok(n) else ()
             if rep.fail('Make: name %r passed through $(call RULE,...) is delivered as %r' % (n, got),
                         {'name': n, 'delivered': got, 'makefile': text, 'out': out[-300:]}, classes=tuple(cls)):
                 bad += 1
